@@ -120,7 +120,7 @@ def drop_scratch(tag):
     if tag in PERMANENT_TAGS or not os.path.isdir(CACHE):
         return
     for e in os.listdir(CACHE):
-        if e.startswith("target-%s-" % tag) or e == "target-witness-%s" % tag:
+        if e.startswith("target-%s-" % tag) or e == "target-witness-%s" % tag or e == "witness-%s" % tag:
             shutil.rmtree(os.path.join(CACHE, e), ignore_errors=True)
         elif e.startswith("extract-%s-" % tag) and e.endswith(".lock"):
             try:
